@@ -158,3 +158,112 @@ spec(lean="cut_short_tip", module="AlgoShortTip", file=_ST_TT, cls="CutShortTipB
      vars={"ids": "List Int", "pids": "List Int", "thre": "K", "removals": "List Int"}, ret=_ST_RES, fuel=True,
      doc="`swcgeom/transforms/tree.py::CutShortTipBranch.__call__` (the tree is its columns `ids`, `pids`; `callbacks` is `self.callbacks` on entry: "
          "what `__init__` put there; the result stands for the `Tree` built from it)")
+
+
+# ----------------------------------------------------------------------------------------------------------------------------------------------
+# tree_utils_impl.py::to_subtree_impl, tree_utils.py::get_subtree / to_sub_tree: trees AND the `ndata` dictionary as column variables
+# (`tree_cols`: the dictionary of per-node arrays of a tree is the tree's columns; the column named `x` of a type parameter stands for every further
+# attribute column - the code treats all columns alike)
+
+# --- `X = {k: T.get_ndata(k)[M].copy() for k in T.keys()}`: every column of T gathered by the index array M into the column of X of the same name
+def _gather_all_columns(tr, s):
+    if not (isinstance(s, ast.Assign) and len(s.targets) == 1 and isinstance(s.targets[0], ast.Name) and isinstance(s.value, ast.DictComp)):
+        return None
+    X, dc = s.targets[0].id, s.value
+    if X not in tr.spec.tree_cols or len(dc.generators) != 1 or dc.generators[0].ifs or not isinstance(dc.generators[0].target, ast.Name):
+        return None
+    k = dc.generators[0].target.id
+    it = dc.generators[0].iter
+    if not (isinstance(it, ast.Call) and isinstance(it.func, ast.Attribute) and it.func.attr == "keys" and not it.args and not it.keywords):
+        return None
+    T = ast.unparse(it.func.value)
+    if T not in tr.spec.tree_cols or set(tr.spec.tree_cols[T]) != set(tr.spec.tree_cols[X]) or ast.unparse(dc.key) != k:
+        raise Untranslatable(f"{tr.spec.lean}: `{ast.unparse(s)}`: `{T}` and `{X}` must be declared with the same columns")
+    val = dc.value
+    if (isinstance(val, ast.Call) and isinstance(val.func, ast.Attribute) and val.func.attr == "copy" and not val.args and not val.keywords):
+        val = val.func.value                                  # `.copy()` of a freshly gathered array: the same values
+    if not (isinstance(val, ast.Subscript) and ast.unparse(val.value) == f"{T}.get_ndata({k})" and isinstance(val.slice, ast.Name)):
+        raise Untranslatable(f"{tr.spec.lean}: `{ast.unparse(s)}`")
+    M = val.slice.id
+    src = "\n".join(f"{tr.spec.tree_cols[X][c]} = {tr.spec.tree_cols[T][c]}[{M}]" for c in tr.spec.tree_cols[T])
+    return tr.block(ast.parse(src).body)
+
+
+# --- `X[T.names.<col>] = e`: the column `<col>` of the dictionary of per-node arrays X is replaced
+def _store_named_column(tr, s):
+    if not (isinstance(s, ast.Assign) and len(s.targets) == 1 and isinstance(s.targets[0], ast.Subscript) and isinstance(s.targets[0].value, ast.Name)):
+        return None
+    X, key = s.targets[0].value.id, s.targets[0].slice
+    if X not in tr.spec.tree_cols or not (isinstance(key, ast.Attribute) and isinstance(key.value, ast.Attribute) and key.value.attr == "names"
+                                           and ast.unparse(key.value.value) in tr.spec.tree_cols):
+        return None
+    if key.attr not in tr.spec.tree_cols[X]:
+        raise Untranslatable(f"{tr.spec.lean}: `{ast.unparse(s)}`: no column `{key.attr}`")
+    asg = ast.Assign([ast.Name(tr.spec.tree_cols[X][key.attr], ast.Store())], s.value)
+    ast.copy_location(asg, s); ast.fix_missing_locations(asg)
+    return tr.stmt(asg)
+
+
+# --- `if isinstance(p, list): A  elif isinstance(p, dict): B`: a test on the declared type of a variable selects its branch statically (the definition
+# is the specialisation of the function to the declared type of `p`; a variable declared `Option T` that is absent - `absent=[..]` - is neither)
+def _static_isinstance(tr, s):
+    if not isinstance(s, ast.If):
+        return None
+    t = s.test
+    if not (isinstance(t, ast.Call) and ast.unparse(t.func) == "isinstance" and len(t.args) == 2 and isinstance(t.args[0], ast.Name)
+            and isinstance(t.args[1], ast.Name) and t.args[1].id in ("list", "dict")):
+        return None
+    p = t.args[0].id
+    if p in tr.spec.absent:
+        holds = False
+    else:
+        ty = tr.var_type(p)
+        holds = isinstance(ty, tuple) and ((t.args[1].id == "list" and ty[0] == "List") or (t.args[1].id == "dict" and ty[0] in ("Dict", "DDict")))
+    live = s.body if holds else s.orelse
+    return tr.block(live) if live else "Py.skip"
+
+
+# --- `l.clear()` / `l.extend(xs)` on a list variable
+def _list_clear_extend(tr, s):
+    if not (isinstance(s, ast.Expr) and isinstance(s.value, ast.Call) and isinstance(s.value.func, ast.Attribute)
+            and isinstance(s.value.func.value, ast.Name) and not s.value.keywords):
+        return None
+    l, meth, args = s.value.func.value.id, s.value.func.attr, s.value.args
+    if l not in tr.vars or not (isinstance(tr.vars[l], tuple) and tr.vars[l][0] == "List"):
+        return None
+    if meth == "clear" and not args:
+        return tr.chain([], f".next {{ v with {lname(l)} := [] }}")
+    if meth == "extend" and len(args) == 1:
+        st, c, t = tr.tr(args[0])
+        if t == tr.vars[l]:
+            return tr.chain(st, f".next {{ v with {lname(l)} := v.{lname(l)} ++ {c} }}")
+    return None
+
+
+# --- a dictionary of per-node arrays that is its column variables, used as a value (returned / passed on): the tuple of its columns
+def _columns_value(tr, e, want):
+    if isinstance(e, ast.Name) and e.id in tr.spec.tree_cols and e.id not in tr.vars:
+        cols = tr.spec.tree_cols[e.id]
+        return [], "(" + ", ".join(f"v.{lname(v)}" for v in cols.values()) + ")", prod_of([tr.var_type(v) for v in cols.values()])
+    return None
+
+
+STMT_HOOKS.extend([_gather_all_columns, _store_named_column, _static_isinstance, _list_clear_extend])
+EXPR_HOOKS.append(_columns_value)
+
+_SI = "swcgeom/core/tree_utils_impl.py"
+_SI_COLS = {"swc_like": {"id": "ids", "pid": "pids", "type": "types", "x": "xs"},
+            "ndata": {"id": "nids", "pid": "npids", "type": "ntypes", "x": "nxs"}}
+_SI_TREE = "(List Int) × (List Int) × (List Int) × (List A)"
+_SI_RET = f"Int × ({_SI_TREE}) × Src × Nm"
+_SI_VARS = {"ids": "List Int", "pids": "List Int", "types": "List Int", "xs": "List A", "source": "Src", "names": "Nm",
+            "nids": "List Int", "npids": "List Int", "ntypes": "List Int", "nxs": "List A"}
+_SI_SUBST = {"swc_like.source": ("v.source", "Src"), "swc_like.names": ("v.names", "Nm")}
+spec(lean="to_subtree_impl", module="AlgoShortTip", file=_SI, func="to_subtree_impl",
+     params=["ids", "pids", "types", "xs", "source", "names", "sub", "out_mapping"], tparams=["A", "Src", "Nm"], tree_cols=_SI_COLS,
+     vars={**_SI_VARS, "sub": "(List Int) × (List Int)", "out_mapping": "List Int", "new_id": "List Int", "new_pid": "List Int",
+           "mapping": "List Int", "n_nodes": "Int"},
+     ret=_SI_RET, out=["out_mapping", "ids", "pids", "types", "xs"], subst=_SI_SUBST,
+     doc="`swcgeom/core/tree_utils_impl.py::to_subtree_impl`, `out_mapping` a list (the tree `swc_like` is its columns `ids`, `pids`, `types` and `xs` - "
+         "the latter, over a type parameter, stands for every further attribute column -, its `source` and `names` are opaque values; the returned "
+         "`ndata` dictionary is the tuple of its columns; the columns of the input are returned as well: they are unchanged)")
